@@ -47,8 +47,8 @@ _c05_iter_quick = _c05_iter_shards([
     (B_TET2_FACE, 0, 0), (B_TET2_FACE, 4, 0, 2)]) + [{0: B_TET2_FACE, 1: 1, 2: 0, 3: 1, 5: 1}, {0: B_TET2_FACE, 1: 1, 2: 4, 3: 1, 5: 1}]
 _c05_iter_thorough = _c05_iter_shards(
     [(B_EMPTY, 0, 0), (_C05_MINI, 0, 0), (_C05_MINI, 1, 0), (_C05_MINI, 2, 0)] +
-    [(b, k, 0, 6) for b in (B_LOWDIM, B_TET, B_TET2_FACE) for k in range(5) if k == 0 or _C05_COUNTS[b][k - 1]] +
-    [(b, k, 2, 4) for b in (B_TET3_RING, B_HEX, B_PRISM_PYR) for k in range(5)])
+    [(b, k, 0, 4 if b != B_TET2_FACE else 3) for b in (B_LOWDIM, B_TET, B_TET2_FACE) for k in range(5) if k == 0 or _C05_COUNTS[b][k - 1]] +
+    [(b, k, 2, 2) for b in (B_TET3_RING, B_HEX, B_PRISM_PYR) for k in range(5)])
 
 _G4 = [1, 2 | 32, 4 | 16, 8]   # one query per centre dimension
 _G6 = [1, 2, 32, 4, 16, 8]     # one query per centre kind
@@ -79,27 +79,27 @@ _C05_CIRC_BOUNDS = ("each query: the listed base mesh in deferred-deletion mode 
 PROPS["C05"] = dict(
   jobs=[
     dict(name="c05-iter", harness="C05_iter.cpp", entries=["harness_c05_iter"], units=CORE, unwind=30, checks="none", object_bits=13,
-         shards={"quick": _c05_iter_quick, "thorough": _c05_iter_thorough}, timeout={"quick": 600, "thorough": 1200}, mem_gb=6,
+         shards={"quick": _c05_iter_quick, "thorough": _c05_iter_thorough}, timeout={"quick": 600, "thorough": 1200}, mem_gb=3.5,
          bounds="entity iterators V/E/HE/F/HF/C on bases EMPTY, MINI(2V+1E), LOWDIM, TET, TET2_FACE (thorough: + TET3_RING, HEX, PRISM_PYR) in deferred mode with 0..2 "
                 "deleted entities of one kind plus their upward closure (quick: MINI and TET2_FACE cells: all subsets of size <= 2; LOWDIM V,E and TET F: singles + (0,1),(n-2,n-1),(0,n-1); TET V,E singles; TET2_FACE V0,V4; thorough: all pairs on LOWDIM/TET/TET2_FACE, singles + 3 pairs on the others); the deleted set "
                 "is chosen by a symbolic selector (<= 8 per query); start handle of the iterator constructor symbolic in [0,n]; walks are complete (all positions)"),
     dict(name="c05-circ", harness="C05_circ.cpp", entries=["harness_c05_circ"], units=CORE, unwind=40, checks="none", object_bits=13,
-         shards={"quick": _c05_circ_quick, "thorough": _c05_circ_thorough}, timeout={"quick": 600, "thorough": 1200}, mem_gb=6,
+         shards={"quick": _c05_circ_quick, "thorough": _c05_circ_thorough}, timeout={"quick": 600, "thorough": 1200}, mem_gb=3.5,
          bounds=_C05_CIRC_BOUNDS + "; bases LOWDIM (all single deletions), TET (quick: none,V0,V3,E0,E5,F0,C0; thorough: all), TET2_FACE (quick: none, C1, V4; "
                 "thorough: none, all V, E0/3/8, F0/3/6, both C), thorough also TET3_RING (none, V0/4, E0/9, F0/8, C0); incident lists up to 12 elements"),
     dict(name="c05-circ-big", harness="C05_circ.cpp", entries=["harness_c05_circ"], units=CORE, unwind=80, checks="none", object_bits=14, tiers=["thorough"],
-         shards={"thorough": _c05_circ_big}, timeout=1500, mem_gb=10,
+         shards={"thorough": _c05_circ_big}, timeout=1500, mem_gb=4,
          bounds=_C05_CIRC_BOUNDS + "; bases HEX and PRISM_PYR (none + first/last vertex, edge, face resp. one vertex, the shared quad, each cell); incident lists up to 24 elements"),
     dict(name="c05-steps", harness="C05_circ.cpp", entries=["harness_c05_steps"], units=CORE, unwind=40, checks="none", object_bits=13,
          shards={"quick": _c05_circ_shards([(B_LOWDIM, 0, [0], 1, [0]), (B_TET, 0, [0], 1, _G4)]),
                  "thorough": _c05_circ_shards([(B_LOWDIM, 0, [0], 1, [0]), (B_LOWDIM, 1, [0], 1, [0]), (B_LOWDIM, 2, [0], 1, [0]), (B_TET, 0, [0], 1, _G4), (B_TET, 1, [0], 1, _G4),
-                                               (B_TET, 2, [0], 1, _G4), (B_TET, 3, [0], 1, _G4), (B_TET2_FACE, 0, [0], 1, _G4), (B_TET2_FACE, 4, [1], 1, _G4), (B_TET3_RING, 0, [0], 1, _G4)])},
-         timeout={"quick": 600, "thorough": 1500}, mem_gb=6,
+                                               (B_TET, 2, [0], 1, _G4), (B_TET, 3, [0], 1, _G4), (B_TET2_FACE, 0, [0], 1, _G6), (B_TET2_FACE, 4, [1], 1, _G6), (B_TET3_RING, 0, [0], 1, _G6)])},
+         timeout={"quick": 600, "thorough": 1500}, mem_gb=3.5,
          bounds="symbolic step counts: for every live centre (enumerated) of every one of the 26 circulators, max_laps symbolic in {1,2,3}, k forward steps symbolic in "
                 "0..max_laps*len followed by b backward steps symbolic in 0..k (b = 0 at the end position): valid(), *it, lap() at position k and at position k-b, end == begin "
                 "advanced max_laps*len times; bases LOWDIM and TET without deletion (thorough: + V0/E0/F0 deleted, TET2_FACE none and C1 deleted, TET3_RING none)"),
     dict(name="c05-disabled", harness="C05_circ.cpp", entries=["harness_c05_disabled"], units=CORE, unwind=40, checks="none", object_bits=13,
-         shards={"quick": [{0: B_TET}], "thorough": [{0: B_LOWDIM}, {0: B_TET}, {0: B_TET2_FACE}]}, timeout={"quick": 600, "thorough": 1200}, mem_gb=6,
+         shards={"quick": [{0: B_TET}], "thorough": [{0: B_LOWDIM}, {0: B_TET}, {0: B_TET2_FACE}]}, timeout={"quick": 600, "thorough": 1200}, mem_gb=3.5,
          bounds="bases TET (thorough: LOWDIM, TET, TET2_FACE), no deletions; symbolic selector over the 7 non-empty subsets of disabled bottom-up kinds; every centre enumerated; "
                 "only the validity of the freshly constructed circulator is checked"),
   ],
